@@ -4,12 +4,21 @@ use crate::report::{Args, Report};
 use crate::structural::*;
 
 pub fn run(args: &Args, rep: &mut Report) {
-    let mut w = Workload {
-        args,
-        rep,
-        focus: Focus::Legality,
-        lstats: Default::default(),
-    };
+    let mut w = Workload::new(args, rep, Focus::Legality);
+    // fixed core corpus first (shard 0): guarantees that every gated shape is observed
+    if args.shard == 0 {
+        for dm in crate::c01::dms_available() {
+            for (doc, paths) in crate::corpus::all(dm) {
+                let f = crate::refsim::Flat::from_doc(&doc).unwrap();
+                for p in &paths {
+                    if w.run_one(&doc, &f, p, false) {
+                        w.rep.nontrivial_key(&distinct_key(&doc, p));
+                    }
+                }
+            }
+        }
+    }
+
     let dms = dms_available();
     let n_docs = args.scale(260, 3000);
     let tune = |o: &mut GenOpts| {
